@@ -20,12 +20,15 @@ NOT_DECIDED = [
     "strings longer than the stated bounds",
 ]
 
-def H(name, ob, fns, desc, kind="complete", bound=None, tier="quick", timeout=300):
-    return dict(name=name, ob=ob, functions=[B + "::" + f for f in fns], desc=desc, kind=kind, bound=bound, tier=tier, timeout=timeout)
+def H(name, ob, fns, desc, kind="complete", bound=None, tier="quick", timeout=300, helper_for=None):
+    return dict(name=name, ob=ob, functions=[B + "::" + f for f in fns], desc=desc, kind=kind, bound=bound, tier=tier, timeout=timeout, helper_for=helper_for)
 
 _ALL_H = [
         H("valid_char_table", "C16.K.valid_char.table", ["fn valid_char", "static VALID_CHARS"],
-          "for all 256 bytes: valid_char(b) <=> b in [A-Za-z0-9-._~+/] ('=' is not in the class)"),
+          "for all 128 ASCII bytes: valid_char(b) <=> b in [A-Za-z0-9-._~+/] ('=' is not in the class)"),
+        H("valid_char_high_bytes", "C16.K.valid_char.table_high", ["fn valid_char", "static VALID_CHARS"],
+          "for all bytes >= 128: valid_char(b) is false (helper contract needed by the unguarded call sites; undecided rather than a violation when every property-level obligation on non-ASCII input is discharged)",
+          helper_for=["C16.K.is_valid.regex_len4", "C16.K.entry.deserialize", "C16.K.entry.from_str_new_from_plain"]),
         H("is_valid_matches_regex_len4", "C16.K.is_valid.regex_len4", ["fn is_valid", "fn valid_char"],
           "is_valid(s) <=> s matches ^[A-Za-z0-9\\-._~+/]+=*$ for every UTF-8 string of <= 4 bytes", kind="bounded", bound="strings of <= 4 bytes", timeout=600),
         H("is_valid_long_edge_20_first", "C16.K.is_valid.long_edge.20_first", ["fn is_valid", "fn valid_char"],
@@ -60,7 +63,7 @@ def _variant(drop):
                 s = s[:a] + s[b + len("//@@%s-END" % tag):]
         return s
     return f
-_TABLE = {"valid_char_table"}
+_TABLE = {"valid_char_table", "valid_char_high_bytes"}
 _ISVALID = {"is_valid_long_edge_20_first", "is_valid_long_edge_20_last", "is_valid_long_edge_33_middle", "is_valid_long_edge_33_last", "is_valid_long_edge_40_last", "is_valid_matches_regex_len4", "is_valid_matches_regex_len5", "is_valid_long_one_free_byte", "literals"}
 # three units so that a refactoring of the private helpers (valid_char / is_valid signatures) can only make the
 # units that name them undecided; the entry-path harnesses use the public API only
